@@ -231,7 +231,11 @@ def fixJudge (st : St) (kind : String) (root : Bool) (start : List (List Int)) (
            -- `compile` models `constraints::cumulative` with its default options; with
            -- `allow_holes_in_domain` the real propagator also removes start times inside the domain
            -- (the oracle has already confirmed above that no solution was pruned)
-           if (cumOnly cons st.cumHoles).isNone && cons.any hasCumulative && st.cumHoles.any id then s!"ok fix {kind} stronger-holes" else s!"FAIL fix {kind} CORR real-stronger-than-model start={showDoms start} real={showDoms aft} model={showDoms md}")
+           if (cumOnly cons st.cumHoles).isNone && cons.any hasCumulative && st.cumHoles.any id then s!"ok fix {kind} stronger-holes" else
+           -- a cumulative under a reification literal: some propagator variants build their time-table
+           -- in `initialise_at_root` and report an overload there, which the wrapper turns into
+           -- "literal false" (variant-dependent, not modelled; sound: confirmed by the oracle above)
+           if cons.any (fun c => hasCumulative c && (match c with | .cumulative _ _ => false | _ => true)) then s!"ok fix {kind} stronger-reified-timetable" else s!"FAIL fix {kind} CORR real-stronger-than-model start={showDoms start} real={showDoms aft} model={showDoms md}")
         else if ((cumOnly cons st.cumHoles).isSome || cons.any hasCumulative) && domsSub md aft then
           -- the incremental time-table variants occasionally miss a propagation (sound; the property
           -- does not ask for a particular strength): counted, not an alarm
